@@ -352,12 +352,20 @@ theorem freshBf_adv (s : St) : Adv s { s with bf := some (List.replicate s.n fal
 
 theorem resetCompletion_adv (s : St) : Adv s s.resetCompletion := by adv_frame
 
-theorem hadFresh_adv (m : M) (h : Sound0 m.1) : Adv m.1 (hadFresh m).1 := by
-  unfold hadFresh
-  refine Adv.trans ?_ (hadCheck_adv _)
+theorem hadFreshInstall_adv (m : M) (h : Sound0 m.1) : Adv m.1 (hadFreshInstall m).1 := by
+  unfold hadFreshInstall
   simp only [onSt_fst]
   have a1 := (freshBf_adv m.1).trans (resetCompletion_adv _)
   exact a1.trans (markPaddingPieces_adv _ (h.adv a1))
+
+theorem hadFresh_adv (m : M) (h : Sound0 m.1) : Adv m.1 (hadFresh m).1 := by
+  unfold hadFresh
+  dsimp only
+  refine Adv.trans (hadFreshInstall_adv m h) ?_
+  split
+  · simp only [onSt_fst]
+    exact stop_adv' _ _ _ rfl rfl rfl rfl rfl
+  · exact hadCheck_adv _
 
 theorem hadTrust_adv (m : M) (b : List Bool) (h : Sound0 m.1) : Adv m.1 (hadTrust m b).1 := by
   unfold hadTrust
